@@ -70,6 +70,8 @@ func runC16(w *World, r *Report) {
 	ruleMono(w, r)
 	rulePairBool(w, r)
 	ruleCostAll(w, r)
+	// Compile works on a copy of the Config: every configured cost must survive the copy
+	ruleCopyAll(w, r)
 }
 
 func ruleSortGate(w *World, r *Report, fn *ssa.Function, set map[*ssa.Function]bool) {
